@@ -202,6 +202,12 @@ class PyRandomShim:
     def seed(self, *a, **k):
         return None
 
+    def Random(self, *a, **k):
+        # a private random.Random(...) created inside the library is owned as well
+        return self
+
+    SystemRandom = Random
+
     def getstate(self):
         return _real_random.getstate()
 
@@ -324,6 +330,10 @@ class NpRandomShim:
         fam = perm_family(len(x))
         p = fam[CH.choose(len(fam), "np.random.permutation")]
         return x[list(p)]
+
+    def default_rng(self, *a, **k):
+        # a Generator created inside the library (np.random.default_rng(...)) is owned as well
+        return _GEN
 
     def seed(self, *a, **k):
         # seeding is irrelevant under the shims, but keep the real global in step so that
